@@ -166,7 +166,7 @@ func (c *scriptCase) modelLine() string {
 		o = strings.Join(opts, ",")
 	}
 	line := fmt.Sprintf("%s %s %d %d %d %s %d %s %s%s %s %s %s", c.Op, predToken(c.Pred), c.MaxRetry, c.Min, c.Max, joinInts(c.Tbl), c.Dflt, cn, c.Manifest, c.Body, d, sc, o)
-	if c.Op == "Q" || c.Op == "Z" {
+	if c.Op == "Q" || c.Op == "Z" || c.Op == "w" {
 		tb := "G"
 		if c.TokenPost {
 			tb = "P" + hex.EncodeToString([]byte(c.tokenFormOf()))
@@ -639,7 +639,7 @@ func execScript(t *testing.T, c *scriptCase) (obs scriptObs) {
 	synctest.Test(t, func(t *testing.T) {
 		srv := &server{start: time.Now(), script: c.Script}
 		var authClient *auth.Client
-		if c.Op == "A" || c.Op == "W" || c.Op == "V" || c.Op == "U" || c.Op == "X" || c.Op == "Q" || c.Op == "Y" || c.Op == "Z" || c.PreAuth {
+		if c.Op == "A" || c.Op == "W" || c.Op == "w" || c.Op == "V" || c.Op == "U" || c.Op == "X" || c.Op == "Q" || c.Op == "Y" || c.Op == "Z" || c.PreAuth {
 			authClient = &auth.Client{Cache: auth.NewCache(),
 				Credential: auth.StaticCredential("registry.example", auth.Credential{Username: "u", Password: "p"})}
 		}
@@ -648,7 +648,7 @@ func execScript(t *testing.T, c *scriptCase) (obs scriptObs) {
 			srv.tokenScripted, srv.tokenScript = true, c.TokenScript
 			authClient.ForceAttemptOAuth2 = c.TokenPost
 		}
-		if c.Op == "W" {
+		if c.Op == "W" || c.Op == "w" {
 			// warm the token cache: one challenged GET, so that a Bearer token for the
 			// challenge's scope is cached before the request under test
 			authClient.Client = &http.Client{Transport: srv} // no retries, no custom predicate during the warm-up
@@ -660,6 +660,11 @@ func execScript(t *testing.T, c *scriptCase) (obs scriptObs) {
 			}
 			wresp.Body.Close()
 			srv.script, srv.pos, srv.log, srv.start = c.Script, 0, nil, time.Now()
+			if c.Op == "w" {
+				// from here on the token service is scripted (the fresh token of the third send)
+				srv.tokenScripted, srv.tokenScript = true, c.TokenScript
+				authClient.ForceAttemptOAuth2 = c.TokenPost
+			}
 		}
 		ctx := context.Background()
 		if c.Op == "V" || c.Op == "X" {
@@ -910,6 +915,10 @@ func scriptCaseRun(t *testing.T, c *scriptCase) {
 			showAttempts(obs.tokenLog, form), showAttempts(sends[1], data))
 		run.Count(fmt.Sprintf("token_attempts_%d", len(obs.tokenLog)))
 	}
+	if c.Op == "w" {
+		line = fmt.Sprintf("%s end=%d first=%s second=%s token=%s third=%s", obs.res, obs.end, showAttempts(sends[0], data),
+			showAttempts(sends[1], data), showAttempts(obs.tokenLog, form), showAttempts(sends[2], data))
+	}
 	upload := c.Op == "U" || c.Op == "u" || c.Op == "X" || c.Op == "Y" || c.Op == "y" || c.Op == "Z"
 	if upload {
 		// sends of a blob push: POST (as sent first / re-sent after a challenge), PUT (same)
@@ -1101,7 +1110,7 @@ func scriptCaseRun(t *testing.T, c *scriptCase) {
 	}
 	// O7 (op Q, the call ended with the token request): the token service's last answer decides
 	tokenWasLast := len(obs.tokenLog) > 0 && (len(obs.log) == 0 || obs.tokenLog[len(obs.tokenLog)-1].seq > obs.log[len(obs.log)-1].seq)
-	if (c.Op == "Q" || c.Op == "Z") && obs.res != "ECTX" && tokenWasLast {
+	if (c.Op == "Q" || c.Op == "Z" || c.Op == "w") && obs.res != "ECTX" && tokenWasLast {
 		tl := obs.tokenLog[len(obs.tokenLog)-1]
 		var want []string
 		switch {
@@ -1160,7 +1169,7 @@ func scriptCaseRun(t *testing.T, c *scriptCase) {
 			switch {
 			case len(sends[1]) == 0 && (last.beh.Chal == 1 || last.beh.Chal == 2):
 				ok = true
-			case c.Op == "W" && len(sends[1]) > 0 && len(sends[2]) == 0 && firstLast.Code == 401 && firstLast.Chal == 2:
+			case (c.Op == "W" || c.Op == "w") && len(sends[1]) > 0 && len(sends[2]) == 0 && firstLast.Code == 401 && firstLast.Chal == 2:
 				ok = true
 			}
 		}
@@ -1373,7 +1382,7 @@ func genDuration(r *common.Rand) int64 {
 }
 
 func genScript(r *common.Rand, big bool) *scriptCase {
-	c := &scriptCase{Op: common.Pick(r, []string{"T", "T", "T", "A", "A", "A", "W", "W", "V", "V", "U", "U", "u", "X", "X", "Q", "Q", "Q", "Y", "y", "Z", "Z"}), Cancel: -1}
+	c := &scriptCase{Op: common.Pick(r, []string{"T", "T", "T", "A", "A", "A", "W", "W", "V", "V", "U", "U", "u", "X", "X", "Q", "Q", "Q", "Y", "y", "Z", "Z", "w", "w"}), Cancel: -1}
 	c.MaxRetry = common.Pick(r, []int{0, 1, 2, 3, 3, 5, 5, 8, -1})
 	c.Min = genDuration(r)
 	if c.Min < 0 && r.Chance(3, 4) {
@@ -1543,7 +1552,24 @@ func genScript(r *common.Rand, big bool) *scriptCase {
 			c.TokenScript = append(c.TokenScript, behaviour{Kind: "S", Code: 200, Read: -1, Lat: int64(r.Intn(30)) * 2})
 		}
 	}
-	if c.Op == "W" && len(c.Script) >= 2 {
+	if c.Op == "w" {
+		c.Manifest, c.PreAuth = "", false
+		c.TokenPost = r.Chance(1, 2)
+		for i := r.Intn(4); i > 0; i-- {
+			b := genBehaviour(r, false, true)
+			if b.Kind == "S" && b.Code >= 300 && b.Code < 400 {
+				b.Code = 503
+			}
+			if b.Read >= 0 {
+				b.Read = r.Intn(120)
+			}
+			c.TokenScript = append(c.TokenScript, b)
+		}
+		if r.Chance(3, 4) {
+			c.TokenScript = append(c.TokenScript, behaviour{Kind: "S", Code: 200, Read: -1, Lat: int64(r.Intn(30)) * 2})
+		}
+	}
+	if (c.Op == "W" || c.Op == "w") && len(c.Script) >= 2 {
 		// exercise the cached-token re-send and the fresh-token third send
 		if r.Chance(1, 2) {
 			c.Script[0].Kind, c.Script[0].Code, c.Script[0].Chal = "S", 401, 2
@@ -2121,7 +2147,7 @@ func replayCases(t *testing.T) {
 			continue
 		}
 		switch head.Op {
-		case "T", "A", "W", "V", "U", "u", "X", "Q", "Y", "y", "Z":
+		case "T", "A", "W", "w", "V", "U", "u", "X", "Q", "Y", "y", "Z":
 			var c scriptCase
 			if err := json.Unmarshal(js, &c); err != nil {
 				panic(err)
@@ -2295,7 +2321,7 @@ func coverageFloors(t *testing.T) {
 		"enumerated": 1000, "enumerated_cancel_instants": 500, "enumerated_uploads": 1000, "enumerated_manifest": 20,
 		"point_BD": 500, "point_BP": 3000, "point_DP": 1000, "point_seen_W": 2000, "point_seen_FAIL": 100,
 		"real_transport": 4, "real_transport_complete_bodies": 2, "token_scenarios": 100, "oracle_only_default_policy": 100,
-		"token_attempts_2": 20, "parse_int": 2000, "parse_int_nonzero": 1000, "enumerated_tokens": 300, "op_Y": 50, "op_y": 50, "op_Z": 80, "enumerated_push_tokens": 300, "op_QM": 15,
+		"token_attempts_2": 20, "parse_int": 2000, "parse_int_nonzero": 1000, "enumerated_tokens": 300, "op_Y": 50, "op_y": 50, "op_Z": 80, "enumerated_push_tokens": 300, "op_QM": 15, "op_w": 80,
 	}
 	var low []string
 	for k, min := range floors {
